@@ -36,6 +36,10 @@ namespace K
 def zero : K := ⟨0, 0, 0, 0⟩
 def one : K := ⟨1, 0, 0, 0⟩
 def ofInt (n : Int) : K := ⟨n, 0, 0, 0⟩
+/-- the imaginary unit -/
+def I : K := ⟨0, 0, 1, 0⟩
+/-- `√2` -/
+def sqrt2 : K := ⟨0, 1, 0, 0⟩
 def add (x y : K) : K := ⟨x.a + y.a, x.b + y.b, x.c + y.c, x.d + y.d⟩
 def neg (x : K) : K := ⟨-x.a, -x.b, -x.c, -x.d⟩
 /-- `(a+b√2 + (c+d√2)i)(a'+b'√2 + (c'+d'√2)i)` -/
@@ -101,6 +105,10 @@ def mul (A B : SMat) : SMat := ⟨A.den * B.den, matMul A.m B.m⟩
 def add (A B : SMat) : SMat := ⟨A.den * B.den, matAdd (matScale (K.ofInt B.den) A.m) (matScale (K.ofInt A.den) B.m)⟩
 def neg (A : SMat) : SMat := ⟨A.den, matScale (K.ofInt (-1)) A.m⟩
 def smulInt (s : Int) (A : SMat) : SMat := ⟨A.den, matScale (K.ofInt s) A.m⟩
+def smulK (s : K) (A : SMat) : SMat := ⟨A.den, matScale s A.m⟩
+/-- `A / k` -/
+def divNat (A : SMat) (k : Nat) : SMat := ⟨A.den * k, A.m⟩
+def transposeS (A : SMat) : SMat := ⟨A.den, transpose A.m⟩
 instance : Mul SMat := ⟨mul⟩
 instance : Add SMat := ⟨add⟩
 instance : Neg SMat := ⟨neg⟩
